@@ -94,7 +94,7 @@ def check_transitions(ctx, prog, I, moves_sample, status_modes):
                         v('side', 'side to move afterwards is %r, expected %s' % (side, 'gold' if want_side else 'silver'))
                     base, off = affine_of(fld(prog, GS, r, 'move_number'))
                     want_off = 1 if (ends and not gold) else 0
-                    ok = off == want_off and base == Term('tok', ('n',), 64)
+                    ok = off == want_off and isinstance(base, Term) and base.kind == 'tok' and base.args == ('n',)
                     ctx.ob('[%s] move number = n + %d' % (mode, want_off), ok, sample=(ends and not gold and a[0] == 'Pass'))
                     if not ok:
                         v('move-number', 'move number becomes n + %s (base %r), expected n + %d (it grows exactly when Silver\'s turn ends)'
@@ -163,13 +163,16 @@ def check_step_is_len(ctx, prog, I):
             ctx.finding('C03', fn, 'step-is-len', 'step() is not the length of the recorded-board list: %r for %d boards' % (r, k))
 
 
-def check_overflow_sites(ctx, I, rule_prop):
-    """K1: move number arithmetic."""
+def check_overflow_sites(ctx, I, rule_prop, prog=None):
+    """K1: move number arithmetic. The finding is keyed by operator and operand type, so that the known finding (overflow of
+    a usize at usize::MAX) does not cover a narrower counter."""
+    from .rules_panic import overflow_type
     for (fname, at, msg), detail in sorted(I.asserts_bad.items()):
         if msg == 'Overflow' and (fname.endswith('GameState::pass') or fname.endswith('GameState::move_piece')):
-            ctx.ob('%s: move_number + 1 cannot overflow' % fname, False, sample=True)
-            ctx.finding('PANIC-SITE', fname, 'Overflow(Add)',
-                        'move_number + 1 overflows when the (parsed) move number is usize::MAX and Silver\'s turn ends', at=at)
+            ty = overflow_type(prog, fname, at) if prog is not None else 'Add'
+            ctx.ob('%s: move_number + 1 cannot overflow (%s)' % (fname, ty), False, sample=True)
+            ctx.finding('PANIC-SITE', fname, 'Overflow(%s)' % ty,
+                        'move_number + 1 overflows (%s) when the move number is at the maximum of its type and Silver\'s turn ends' % ty, at=at)
 
 
 # ------------------------------------------------------------------------------------------------ C12
